@@ -926,9 +926,10 @@ def ml_gmm_m_step(
     #      = 1/n * sum (Pxx) - mean^2
     if update_variances:
         logger.debug("Update variances.")
-        machine.variances = statistics.sum_pxx / thresholded_n[
-            :, None
-        ] - np.power(machine.means, 2)
+        # second moment about the machine's (possibly not updated) means
+        machine.variances = (
+            statistics.sum_pxx - 2 * machine.means * statistics.sum_px
+        ) / thresholded_n[:, None] + np.power(machine.means, 2)
 
 
 def map_gmm_m_step(
